@@ -4,10 +4,13 @@
    The specification (Spec/NextMatch.v) is an executable search; the first
    group of theorems shows that it really is "the least matching date-time not
    earlier than p" (so that it can serve as the oracle); the second group ties
-   the model of add_truncated to it.  Least-ness of the model's result for day
-   designators is NOT proved here (C20_day_partial gives match, order and
-   termination only); it rests on the correspondence + oracle run, and known
-   finding F10 shows it is false when an hour is missing. *)
+   the model of add_truncated to it.  Least-ness of the model's result is proved
+   for time fields only (C20_time_only), for one day designator alone
+   (C20_day_least) and for one day designator with an hour (C20_day_time_least,
+   appended below); known finding F10 shows it is false when a day designator
+   meets minute/second fields without an hour.  Week+weekday designators, days
+   29-31 / 361-366 and truncated points with their own zone rest on the
+   correspondence + oracle run. *)
 From Coq Require Import QArith Qround List.
 From Iso Require Import Proofs.Tac Spec.Cal Spec.Instant Spec.NextMatch Model.Num Model.Duration Model.TimePoint
   Model.Truncated Proofs.NextMatchSpec Proofs.TruncSpec.
@@ -98,3 +101,46 @@ Example C20_ex :
                (mkTp (Ord 2001 1) (HMS 12 0 0) (mkZone 0 0))
     = TOk (mkTp (Ord 2004 366) (HMS 12 0 0) (mkZone 0 0)).
 Proof. vm_compute. split; reflexivity. Qed.
+
+(* --- least-ness with a day designator: the two shapes where it holds --- *)
+From Iso Require Import Proofs.TruncLeastSpec.
+
+(* one day designator, no time field: the day reached is the LEAST matching day
+   not earlier than p's local day (the second of day is kept) *)
+Theorem C20_day_least : forall md p t, normal_tp md p = true -> day_only md t ->
+  exists r, tp_add_trunc md t p = TOk r /\ valid_tp md r = true /\ tzone r = tzone p /\
+    (let '(n0, s0) := local_ds md p (tzone p) in let '(n, s) := local_ds md r (tzone p) in
+     next_match md (mkDay (t_dow t) (t_dom t) (t_doy t) None) (mkTod None None None) n0 (Qfloor s0) 3000
+       = Some (n, Qfloor s)).
+Proof. exact add_trunc_day_least. Qed.
+Print Assumptions C20_day_least.
+
+(* one day designator together with an hour (minute, second optional), zone of
+   t unknown: the result is the least match, valid, in p's offset, and adding t
+   again changes nothing *)
+Definition day_time (md : mode) (t : trunc) : Prop :=
+  t_hour t <> None /\ field_ok (t_hour t) 24 /\ field_ok (t_min t) 60 /\ field_ok (t_sec t) 60 /\ t_zone t = None /\
+  ((exists d, 1 <= d <= 7 /\ t_dow t = Some d /\ t_dom t = None /\ t_doy t = None /\ t_week t = None) \/
+   (exists d, 1 <= d <= 28 /\ t_dom t = Some d /\ t_dow t = None /\ t_doy t = None /\ t_week t = None) \/
+   (exists d, 1 <= d <= 360 /\ t_doy t = Some d /\ t_dow t = None /\ t_dom t = None /\ t_week t = None)).
+Theorem C20_day_time_least : forall md p t, valid_tp md p = true -> whole_second p -> day_time md t ->
+  exists r, tp_add_trunc md t p = TOk r /\ valid_tp md r = true /\ tzone r = tzone p /\
+    (let '(n0, s0) := local_ds md p (tzone p) in let '(n, s) := local_ds md r (tzone p) in
+     next_match md (mkDay (t_dow t) (t_dom t) (t_doy t) None)
+                (mkTod (qfl (t_hour t)) (qfl (t_min t)) (qfl (t_sec t)))
+                n0 (Qfloor s0) 3000 = Some (n, Qfloor s) /\ qis_int s = true) /\
+    tp_add_trunc md t r = TOk r.
+Proof. exact add_trunc_day_time_least. Qed.
+Print Assumptions C20_day_time_least.
+
+Example C20_least_ex :
+  tp_add_trunc G (mkTrunc (Some 12%Q) (Some 39%Q) None None (Some 1) None None None)
+               (mkTp (Cal 2009 2 28) (HMS 13 0 0) (mkZone 0 0))
+    = TOk (mkTp (Cal 2009 3 1) (HMS 12 39 0) (mkZone 0 0)) /\
+  next_match G (mkDay None (Some 1) None None) (mkTod (Some 12) (Some 39) None) 733831 46800 3000
+    = Some (733832, 45540) /\
+  tp_add_trunc G (mkTrunc None None None (Some 1) None None None None)
+               (mkTp (Cal 2009 2 28) (HMS 13 0 0) (mkZone 0 0))
+    = TOk (mkTp (Wk 2009 10 1) (HMS 13 0 0) (mkZone 0 0)) /\
+  next_match G (mkDay (Some 1) None None None) (mkTod None None None) 733831 46800 3000 = Some (733833, 46800).
+Proof. vm_compute. repeat split; reflexivity. Qed.
